@@ -239,4 +239,11 @@ Proof.
   split; [exact (E_small_int 5 ltac:(reflexivity))|]. repeat split; vm_compute; reflexivity.
 Qed.
 
+(* the recorded finding C03-map-list-improper-keys on the model: #{[1] => 1, [1|2] => 2}, two entries on the wire, one
+   after decoding (the order answers Equal for a list against an improper list) *)
+Theorem C03_refuted_list_improper_keys :
+  decode cfg_ex [131; 116; 0; 0; 0; 2; 108; 0; 0; 0; 1; 97; 1; 106; 97; 1; 108; 0; 0; 0; 1; 97; 1; 97; 2; 97; 2]
+  = DOk (TMap [(TList [TInt 1], TInt 2)]).
+Proof. vm_compute. reflexivity. Qed.
+
 Check C03_trailing_reported.
